@@ -35,11 +35,13 @@ package main
 // writes every history (requests, snapshots, master log) as JSON.
 
 import (
+	"bufio"
 	"context"
 	"encoding/json"
 	"fmt"
 	"math/rand"
 	"os"
+	"path/filepath"
 	"sort"
 	"strings"
 	"sync"
@@ -52,6 +54,7 @@ import (
 
 	"verif/harness/coresim"
 	simmesos "verif/harness/sim/mesos"
+	"verif/harness/verifplugin"
 	"verif/harness/vlib"
 )
 
@@ -63,6 +66,7 @@ type c04Tpl struct {
 	Tasks   [][2]string // (task class, host)
 	SlowMs  int         // >0: a call hook at before_DEPLOY that takes this long
 	NonCrit string      // host of an additional NON-critical task of class cn ("" = none)
+	Gate    bool        // a DESTROY call hook that blocks until the driver opens a gate file: a teardown window of chosen length
 }
 
 var c04HostDet = map[string]string{"host1": "TST", "host2": "ITS", "host3": "TPC"}
@@ -79,6 +83,9 @@ var c04Templates = []c04Tpl{
 	{Name: "w1s", Hosts: []string{"host1"}, Tasks: [][2]string{{"ca", "host1"}, {"cc", "host3"}}, SlowMs: 60},
 	{Name: "w2s", Hosts: []string{"host2"}, Tasks: [][2]string{{"ca", "host1"}, {"cb", "host2"}}, SlowMs: 60},
 	{Name: "w3s", Hosts: []string{"host3"}, Tasks: [][2]string{{"ca", "host1"}, {"cc", "host3"}}, SlowMs: 60},
+	{Name: "w1g", Hosts: []string{"host1"}, Tasks: [][2]string{{"ca", "host1"}, {"cb", "host2"}}, Gate: true},
+	{Name: "w23g", Hosts: []string{"host2", "host3"}, Tasks: [][2]string{{"cb", "host2"}}, Gate: true},
+	{Name: "w3g", Hosts: []string{"host3"}, Tasks: [][2]string{{"ca", "host1"}, {"cc", "host3"}}, Gate: true},
 }
 
 func (t c04Tpl) dets() []string {
@@ -99,7 +106,7 @@ func c04TplByName(n string) c04Tpl {
 	return c04Tpl{}
 }
 
-func c04Files() map[string]string {
+func c04Files(gateDir string) map[string]string {
 	files := map[string]string{}
 	for cls, mode := range c04Classes {
 		files["tasks/"+cls+".yaml"] = fmt.Sprintf("name: %s\ncontrol:\n  mode: %s\nwants:\n  cpu: 0.1\n  memory: 32\ncommand:\n  shell: true\n  env:\n    - \"VERIF_ROLE={{ task_parent_role }}\"\n  value: \"sleep 100000\"\n", cls, mode)
@@ -116,6 +123,9 @@ func c04Files() map[string]string {
 		}
 		if t.NonCrit != "" {
 			fmt.Fprintf(&sb, "  - name: \"tn\"\n    constraints:\n      - attribute: machine_id\n        value: %q\n    task:\n      load: cn\n      critical: false\n", t.NonCrit)
+		}
+		if t.Gate {
+			fmt.Fprintf(&sb, "  - name: \"dgate\"\n    vars:\n      verif_gate: \"%s/gate-{{ environment_id }}\"\n      verif_tag: \"destroy-gate\"\n    call:\n      func: verif.Slow()\n      trigger: DESTROY\n      timeout: 20s\n      critical: false\n", gateDir)
 		}
 		if t.SlowMs > 0 {
 			fmt.Fprintf(&sb, "  - name: \"slow\"\n    vars:\n      verif_sleep_ms: \"%d\"\n      verif_tag: \"slow\"\n    call:\n      func: verif.Slow()\n      trigger: before_DEPLOY\n      timeout: 10s\n      critical: false\n", t.SlowMs)
@@ -181,6 +191,8 @@ type c04Req struct {
 	FailedEnv string   `json:"env_of_failed_creation,omitempty"`
 	Illegal   bool     `json:"illegal_on_purpose,omitempty"`
 	OnErrEnv  string   `json:"targets_detector_of_environment_in_ERROR,omitempty"`
+	OnGated   string   `json:"issued_inside_teardown_of,omitempty"`
+	GateOpen  int64    `json:"destroy_hook_gate_opened_at_seq,omitempty"`
 }
 
 type c04Env struct {
@@ -196,6 +208,7 @@ type c04Env struct {
 	dead         bool // destroy acknowledged / environment reported unknown
 	destroyErr   bool
 	degraded     int64 // != 0: clock value at which a terminal status was injected for its non-critical task
+	DetHoldEnd   int64 // != 0: clock value before which its teardown was certainly still inside its DESTROY hook (gate not yet opened)
 }
 
 // owned reports whether the environment's ownership interval covers [a,b].
@@ -244,6 +257,9 @@ type c04Hist struct {
 	snaps   []*c04Snap
 	aborted bool
 	snapErr string
+
+	gateDir  string
+	gateWait map[string]chan verifplugin.Record // environments whose destroy is being choreographed
 }
 
 type c04Witness struct {
@@ -308,7 +324,17 @@ func c04Run(c *vlib.Ctx, idx int) {
 	if idx%9 == 1 {
 		c.Sample(p)
 	}
-	opt := coresim.Options{Agents: stdAgents(3), Detectors: map[string][]string{"TST": {"host1"}, "ITS": {"host2"}, "TPC": {"host3"}}, Files: c04Files()}
+	dir, derr := os.MkdirTemp("", "coresim-")
+	if derr != nil {
+		c.Inconclusive("scratch dir: " + derr.Error())
+		return
+	}
+	if os.Getenv("VERIF_KEEP") == "" {
+		defer os.RemoveAll(dir)
+	}
+	gateDir := filepath.Join(dir, "gates")
+	_ = os.MkdirAll(gateDir, 0o755)
+	opt := coresim.Options{Dir: dir, Agents: stdAgents(3), Detectors: map[string][]string{"TST": {"host1"}, "ITS": {"host2"}, "TPC": {"host3"}}, Files: c04Files(gateDir)}
 	if p.Reuse {
 		opt.Settings = map[string]string{"reuseUnlockedTasks": "true"}
 	}
@@ -320,7 +346,11 @@ func c04Run(c *vlib.Ctx, idx int) {
 		c.Inconclusive("coresim start: " + truncate(err.Error(), 3000))
 		return
 	}
-	h := &c04Hist{c: c, p: p, id: id, s: s, envs: map[string]*c04Env{}, bar: newBarrier(p.Clients)}
+	h := &c04Hist{c: c, p: p, id: id, s: s, envs: map[string]*c04Env{}, bar: newBarrier(p.Clients), gateDir: gateDir, gateWait: map[string]chan verifplugin.Record{}}
+	stopWatch := make(chan struct{})
+	watchDone := make(chan struct{})
+	go func() { defer close(watchDone); h.watchGates(filepath.Join(dir, "plugin.jsonl"), stopWatch) }()
+	defer func() { close(stopWatch); <-watchDone }()
 	defer func() {
 		finishSim(c, s, id, h.witness("core crash", nil, ""))
 		s.Close()
@@ -751,27 +781,7 @@ func (h *c04Hist) client(cl int, r *rand.Rand) {
 		var err error
 		switch req.Kind {
 		case "create":
-			var rep *pb.NewEnvironmentReply
-			rep, err = cli.NewEnvironment(ctx, &pb.NewEnvironmentRequest{WorkflowTemplate: req.Tpl, Vars: map[string]string{}})
-			end := vlib.Seq()
-			h.mu.Lock()
-			req.End = end
-			if err == nil {
-				ei := rep.GetEnvironment()
-				d := append([]string(nil), ei.GetIncludedDetectors()...)
-				sort.Strings(d)
-				e := &c04Env{ID: ei.GetId(), Tpl: req.Tpl, Dets: d, Tasks: taskIDs(ei.GetTasks()), CreateStart: req.Start, CreateEnd: end, state: ei.GetState()}
-				h.envs[e.ID] = e
-				h.order = append(h.order, e.ID)
-				req.Env, req.State, req.Tasks, req.Dets = e.ID, e.state, e.Tasks, e.Dets
-			} else if st, ok := status.FromError(err); ok {
-				for _, d := range st.Details() {
-					if ei, ok := d.(*pb.EnvironmentInfo); ok {
-						req.FailedEnv = ei.GetId()
-					}
-				}
-			}
-			h.mu.Unlock()
+			err = h.execCreate(ctx, cli, req)
 		case "control":
 			var rep *pb.ControlEnvironmentReply
 			rep, err = cli.ControlEnvironment(ctx, &pb.ControlEnvironmentRequest{Id: req.Env, Type: pb.ControlEnvironmentRequest_Optype(pb.ControlEnvironmentRequest_Optype_value[req.Op])})
@@ -790,7 +800,16 @@ func (h *c04Hist) client(cl int, r *rand.Rand) {
 			h.mu.Unlock()
 		case "destroy":
 			var rep *pb.DestroyEnvironmentReply
-			rep, err = cli.DestroyEnvironment(ctx, &pb.DestroyEnvironmentRequest{Id: req.Env, Force: strings.Contains(req.Op, "force"), KeepTasks: strings.Contains(req.Op, "keepTasks"), AllowInRunningState: req.Op == "allowInRunning"})
+			dreq := &pb.DestroyEnvironmentRequest{Id: req.Env, Force: strings.Contains(req.Op, "force"), KeepTasks: strings.Contains(req.Op, "keepTasks"), AllowInRunningState: req.Op == "allowInRunning"}
+			var innerErr error
+			if c04TplByName(env.Tpl).Gate {
+				rep, err, innerErr = h.gatedDestroy(ctx, cli, cl, step, req, env, dreq, r, apiTimeout)
+			} else {
+				rep, err = cli.DestroyEnvironment(ctx, dreq)
+			}
+			if innerErr != nil && strings.Contains(grpcMsg(innerErr), "DeadlineExceeded") && err == nil {
+				err = innerErr // the competing creation did not return: handled like any request that does not
+			}
 			end := vlib.Seq()
 			h.mu.Lock()
 			req.End = end
@@ -858,6 +877,158 @@ func (h *c04Hist) client(cl int, r *rand.Rand) {
 			return
 		}
 	}
+}
+
+// execCreate issues NewEnvironment for req.Tpl and records the outcome.
+func (h *c04Hist) execCreate(ctx context.Context, cli pb.ControlClient, req *c04Req) error {
+	rep, err := cli.NewEnvironment(ctx, &pb.NewEnvironmentRequest{WorkflowTemplate: req.Tpl, Vars: map[string]string{}})
+	end := vlib.Seq()
+	h.mu.Lock()
+	defer h.mu.Unlock()
+	req.End = end
+	if err == nil {
+		ei := rep.GetEnvironment()
+		d := append([]string(nil), ei.GetIncludedDetectors()...)
+		sort.Strings(d)
+		e := &c04Env{ID: ei.GetId(), Tpl: req.Tpl, Dets: d, Tasks: taskIDs(ei.GetTasks()), CreateStart: req.Start, CreateEnd: end, state: ei.GetState()}
+		h.envs[e.ID] = e
+		h.order = append(h.order, e.ID)
+		req.Env, req.State, req.Tasks, req.Dets = e.ID, e.state, e.Tasks, e.Dets
+	} else if st, ok := status.FromError(err); ok {
+		for _, d := range st.Details() {
+			if ei, ok := d.(*pb.EnvironmentInfo); ok {
+				req.FailedEnv = ei.GetId()
+			}
+		}
+	}
+	return err
+}
+
+func (h *c04Hist) openGate(envID string) {
+	if f, err := os.Create(filepath.Join(h.gateDir, "gate-"+envID)); err == nil {
+		f.Close()
+	}
+}
+
+// watchGates follows the plugin log. A DESTROY hook of a "g" template blocks until its gate file exists: when
+// the teardown belongs to a destroy that a client is choreographing, the client is told (it opens the gate
+// itself); any other teardown (a failed creation) gets its gate opened at once.
+func (h *c04Hist) watchGates(path string, stop chan struct{}) {
+	var off int64
+	for {
+		select {
+		case <-stop:
+			return
+		case <-time.After(5 * time.Millisecond):
+		}
+		f, err := os.Open(path)
+		if err != nil {
+			continue
+		}
+		if _, err := f.Seek(off, 0); err != nil {
+			f.Close()
+			continue
+		}
+		rd := bufio.NewReaderSize(f, 1<<16)
+		for {
+			line, err := rd.ReadBytes('\n')
+			if err != nil {
+				break // incomplete line: read again next time
+			}
+			off += int64(len(line))
+			var rec verifplugin.Record
+			if json.Unmarshal(line, &rec) != nil || rec.Tag != "destroy-gate" || rec.Phase != "start" {
+				continue
+			}
+			h.mu.Lock()
+			ch := h.gateWait[rec.Env]
+			h.mu.Unlock()
+			if ch != nil {
+				select {
+				case ch <- rec:
+				default:
+				}
+			} else {
+				h.openGate(rec.Env)
+			}
+		}
+		f.Close()
+	}
+}
+
+// gatedDestroy destroys an environment whose template has the gated DESTROY hook: the destroy is sent, and as
+// soon as the hook's start record shows that the teardown is inside its DESTROY hooks (tasks released, the
+// environment not yet gone) a creation needing one of its detectors is issued; only when that creation has
+// returned (and a snapshot was taken) is the gate opened. Until then the environment holds its detectors.
+func (h *c04Hist) gatedDestroy(ctx context.Context, cli pb.ControlClient, cl, step int, req *c04Req, env *c04Env, dreq *pb.DestroyEnvironmentRequest, r *rand.Rand, apiTimeout time.Duration) (*pb.DestroyEnvironmentReply, error, error) {
+	ch := make(chan verifplugin.Record, 1)
+	h.mu.Lock()
+	h.gateWait[env.ID] = ch
+	h.mu.Unlock()
+	type res struct {
+		rep *pb.DestroyEnvironmentReply
+		err error
+	}
+	done := make(chan res, 1)
+	go func() {
+		rep, err := cli.DestroyEnvironment(ctx, dreq)
+		done <- res{rep, err}
+	}()
+	finish := func() res {
+		h.openGate(env.ID)
+		h.mu.Lock()
+		delete(h.gateWait, env.ID)
+		h.mu.Unlock()
+		return <-done
+	}
+	var rec verifplugin.Record
+	select {
+	case rec = <-ch:
+	case d := <-done: // refused or failed before any hook ran
+		done <- d
+		d = finish()
+		return d.rep, d.err, nil
+	case <-time.After(30 * time.Second):
+		d := finish()
+		return d.rep, d.err, nil
+	}
+	h.c.Count("teardown_windows_held_open", 1)
+	// a template that needs one of the detectors of the environment being torn down
+	var hit []c04Tpl
+	for _, t := range c04Templates {
+		if len(intersect(t.dets(), env.Dets)) > 0 {
+			hit = append(hit, t)
+		}
+	}
+	creq := &c04Req{Client: cl, Step: step, Kind: "create", Tpl: hit[r.Intn(len(hit))].Name, OnGated: env.ID}
+	h.mu.Lock()
+	creq.Start = vlib.Seq()
+	h.reqs = append(h.reqs, creq)
+	h.mu.Unlock()
+	cctx, ccancel := coresim.Ctx(apiTimeout)
+	cerr := h.execCreate(cctx, cli, creq)
+	ccancel()
+	h.c.Count("api_requests", 1)
+	h.c.Count("req_create", 1)
+	h.mu.Lock()
+	creq.Err = truncate(grpcMsg(cerr), 300)
+	h.mu.Unlock()
+	if cerr != nil {
+		h.c.Count("req_create_err", 1)
+	}
+	if cerr == nil || !strings.Contains(grpcMsg(cerr), "DeadlineExceeded") {
+		_ = h.snapshot(cli, cl, step) // inside the window
+	}
+	g := vlib.Seq()
+	h.mu.Lock()
+	req.GateOpen = g
+	if time.Now().UnixNano()-rec.TsNs < int64(10*time.Second) {
+		// the hook (timeout 20 s) cannot have ended before the gate is opened: up to here the teardown was in progress
+		env.DetHoldEnd = g
+	}
+	h.mu.Unlock()
+	d := finish()
+	return d.rep, d.err, cerr
 }
 
 // reconnect drops the scheduler's event stream while no request is in flight and waits until the core has
@@ -1041,6 +1212,12 @@ func (h *c04Hist) evaluate() {
 		}
 		return e.DestroyStart
 	}
+	detEnd := func(e *c04Env) int64 {
+		if e.DetHoldEnd != 0 {
+			return e.DetHoldEnd
+		}
+		return end(e)
+	}
 	reported := map[string]bool{}
 	violate := func(rule, class, detail, what string, focus interface{}, task string) {
 		k := rule + "/" + class + "/" + what
@@ -1174,7 +1351,24 @@ func (h *c04Hist) evaluate() {
 				hi = end(f)
 			}
 			if lo >= hi {
-				continue // never live at the same time
+				// never live at the same time - but an environment keeps its detectors while its teardown is
+				// inside its DESTROY hooks: a creation ACKNOWLEDGED before the hook's gate was opened was admitted
+				// while the detector was still held
+				dlo, dhi := e.CreateEnd, detEnd(e)
+				if f.CreateEnd > dlo {
+					dlo = f.CreateEnd
+				}
+				if detEnd(f) < dhi {
+					dhi = detEnd(f)
+				}
+				if dlo < dhi {
+					c.Count("teardown_window_pairs_checked", 1)
+					if sd := intersect(e.Dets, f.Dets); len(sd) > 0 {
+						violate("DET-EXCL", "holder-being-destroyed", fmt.Sprintf("detector %s: the creation of %s (%s) was acknowledged while the teardown of %s (%s), which includes the detector, was still inside its DESTROY hook (tasks released, hooks running, environment not yet gone)", sd[0], f.ID, f.Tpl, e.ID, e.Tpl), e.ID+f.ID,
+							map[string]interface{}{"detector": sd[0], "env_a": e.ID, "env_b": f.ID, "source": "NewEnvironment replies, gate of the DESTROY hook"}, "")
+					}
+				}
+				continue
 			}
 			c.Count("live_pairs_checked", 1)
 			if sh := intersect(e.Tasks, f.Tasks); len(sh) > 0 {
@@ -1238,6 +1432,24 @@ func (h *c04Hist) evaluate() {
 					}
 					violate("CLEANUP-TOUCHED-OWNED", "roster-entry-lost-during-creation", fmt.Sprintf("task %s, launched for environment %s and listed under it by GetEnvironments while its creation was in progress, is missing from GetTasks in two successive snapshots although no KILL was requested for it: a kill or cleanup issued for something else removed it from the core's task list (the creation %s)", k.task, k.env, outcome), k.env,
 						map[string]interface{}{"task": k.task, "env": k.env, "snapshot_1": sns[i], "snapshot_2": sns[j]}, k.task)
+				}
+			}
+		}
+	}
+
+	// ---- (3) inside a teardown window (destroy sent, DESTROY hook not yet allowed to finish) the detectors are still in use
+	for _, sn := range snaps {
+		for _, id := range order {
+			e := envs[id]
+			if e.DetHoldEnd == 0 || !(e.DestroyStart < sn.S0 && sn.S1 < e.DetHoldEnd) {
+				continue
+			}
+			for _, d := range e.Dets {
+				c.Count("snapshot_detectors_in_teardown_window_judged", 1)
+				if !contains(sn.Active, d) {
+					violate("DETECTOR-NOT-ACTIVE", "holder-being-destroyed", fmt.Sprintf("GetActiveDetectors %v does not list detector %s although the teardown of environment %s, which includes it, is still inside its DESTROY hook", sn.Active, d, e.ID), e.ID,
+						map[string]interface{}{"detector": d, "snapshot": sn}, "")
+					break
 				}
 			}
 		}
